@@ -381,6 +381,7 @@ struct HsFields
 {
 	unsigned session = 0, client = 0;
 	unsigned restart = 0, minver = 0, curver = 3, type = 0, count = 0;
+	unsigned layout = 3; // the version whose field layout the datagram uses (= curver unless crafted otherwise)
 	uint32_t netver = 0;
 	unsigned sid = 0;
 	uint8_t ts[8] = {0};
@@ -415,6 +416,7 @@ static bool hs_decode(const Bytes& d, HsFields& f)
 		return false;
 	f.minver = x[0];
 	f.curver = x[1];
+	f.layout = x[1];
 	f.type = x[2];
 	f.count = x[3];
 	if (f.curver >= 2 && !bitbuf_read_bytes(&rd, &f.netver, 4))
@@ -435,7 +437,7 @@ static Bytes hs_encode(const HsFields& f, const uint8_t* extra, unsigned padbyte
 	bitbuf_write_init(&wr, buf, sizeof(buf));
 	if (cfg->MagicHeaderBits)
 		bitbuf_write_bits(&wr, &cfg->MagicHeader, cfg->MagicHeaderBits);
-	if (f.curver >= 3)
+	if (f.layout >= 3)
 	{
 		uint8_t s = (uint8_t)f.session, c = (uint8_t)f.client;
 		bitbuf_write_bits(&wr, &s, 2);
@@ -443,12 +445,12 @@ static Bytes hs_encode(const HsFields& f, const uint8_t* extra, unsigned padbyte
 	}
 	bitbuf_write_bit(&wr, 1);
 	bitbuf_write_bit(&wr, (uint8_t)f.restart);
-	if (f.curver >= 1)
+	if (f.layout >= 1)
 	{
 		uint8_t x[4] = {(uint8_t)f.minver, (uint8_t)f.curver, (uint8_t)f.type, (uint8_t)f.count};
 		bitbuf_write_bytes(&wr, x, 4);
 	}
-	if (f.curver >= 2)
+	if (f.layout >= 2)
 		bitbuf_write_bytes(&wr, &f.netver, 4);
 	if (f.type != 4) // a restart-handshake request (type 4) carries no secret id / timestamp / cookie
 	{
@@ -479,8 +481,10 @@ static bool craft(const Bytes& src, std::istringstream& is, Bytes& out)
 		f.restart = (unsigned)restart & 1;
 	if (type >= 0)
 		f.type = (unsigned)type & 255;
-	if (curver >= 0)
-		f.curver = (unsigned)curver & 255;
+	if (curver >= 300) // advertise (curver - 300) but keep the layout of the source datagram
+		f.curver = (unsigned)(curver - 300) & 255;
+	else if (curver >= 0)
+		f.curver = f.layout = (unsigned)curver & 255;
 	if (count >= 0)
 		f.count = (unsigned)count & 255;
 	if (sid >= 0)
